@@ -60,11 +60,11 @@ def plan(tier, seed):
                        "env": {"PYCOIN_NATIVE": "none"}, "label": "roundtrip-purepython-%d" % part})
     shards.append({"kind": "secret", "n": 40 if q else 600})
     shards.append({"kind": "secret", "n": 6 if q else 60, "env": {"PYCOIN_NATIVE": "none"}})
-    for i in range(4 if q else 10):
-        shards.append({"kind": "sec", "n": 7500 if q else 190000, "idx": i})
+    for i in range(4 if q else 32):
+        shards.append({"kind": "sec", "n": 7500 if q else 250000, "idx": i})
     shards.append({"kind": "sec", "n": 1500 if q else 100000, "idx": 99, "env": {"PYCOIN_NATIVE": "none"}})
-    for i in range(2 if q else 4):
-        shards.append({"kind": "der", "n": 12000 if q else 250000, "idx": i})
+    for i in range(2 if q else 12):
+        shards.append({"kind": "der", "n": 12000 if q else 300000, "idx": i})
     return shards
 
 
